@@ -29,6 +29,8 @@ ASSUMPTIONS = [
 TYPES = {
     'container2': ('container', {'cap': 2, 'init': 0}), 'container3': ('container', {'cap': 3, 'init': 1}),
     'container1f': ('container', {'cap': 1, 'init': 0, 'amts': (0.5, 1)}),
+    # (amounts that are not positive are refused with ValueError and change nothing)
+    'container2neg': ('container', {'cap': 2, 'init': 1, 'amts': (1, -1)}), 'container2zero': ('container', {'cap': 2, 'init': 1, 'amts': (2, 0)}),
     'store1': ('store', {'cap': 1}), 'store2': ('store', {'cap': 2}),
     'pstore2': ('pstore', {'cap': 2}), 'fstore2': ('fstore', {'cap': 2}),
     'resource1': ('resource', {'cap': 1}), 'resource2': ('resource', {'cap': 2}),
@@ -55,6 +57,7 @@ class Model:
         self.preempt_since = []              # (victim id, time at which the victim had been granted the resource)
         self.n = 0
         self.t = 0
+        self.rejected = []                   # ids of requests that were refused when they were made (ValueError)
         self.released = False                # has any user left the resource yet (the implementation may rebuild its containers then)
 
     def key(self, r):
@@ -144,7 +147,10 @@ class Model:
     def apply(self, op):
         k = op[0]
         self.pending_triggers = getattr(self, 'pending_triggers', [])
-        if k == 'put':
+        if k in ('put', 'get') and self.kind == 'container' and not op[1] > 0:
+            self.rejected.append(self.n)
+            self.n += 1
+        elif k == 'put':
             if self.kind == 'container':
                 self.puts.append(self.new(amt=op[1]))
             else:
@@ -210,7 +216,7 @@ class Model:
         k = self.kind
         if k == 'container':
             return {'level': self.level, 'puts': [r['id'] for r in self.puts], 'gets': [r['id'] for r in self.gets],
-                    'granted': sorted(self.granted)}
+                    'granted': sorted(self.granted), 'rejected': sorted(self.rejected)}
         if k in ('store', 'pstore', 'fstore'):
             return {'items': [repr(x) for x in self.items], 'puts': [r['id'] for r in self.puts], 'gets': [r['id'] for r in self.gets],
                     'granted': sorted(self.granted), 'got': {k: repr(v) for k, v in self.got.items()}}
@@ -270,7 +276,7 @@ def run_real(kind, params, steps):
     res = make(kind, env, params)
     evs = {}            # id -> event
     release = {}        # id -> control event
-    grants, got, preempted, errors = [], {}, [], []
+    grants, got, preempted, errors, rejected = [], {}, [], [], []
     snaps = []
     counter = [0]
 
@@ -339,6 +345,15 @@ def run_real(kind, params, steps):
             i = counter[0]; counter[0] += 1
 
             def proc():
+                if kind == 'container' and not op[1] > 0:
+                    try:
+                        ev = res.put(op[1]) if k == 'put' else res.get(op[1])
+                    except ValueError:
+                        rejected.append(i)
+                        return
+                    evs[i] = ev
+                    yield from waiter(i, ev)
+                    return
                 if k == 'put':
                     ev = res.put(op[1])
                 elif kind == 'container':
@@ -390,6 +405,7 @@ def run_real(kind, params, steps):
                  'preempted': sorted((a, b) for a, b, _, _ in preempted), 'count': res.count,
                  'preempt_details': [(a, u, ok) for a, b, u, ok in preempted]}
         s['granted'] = sorted(grants)
+        s['rejected'] = sorted(rejected)
         s['triggered'] = sorted(i for i, e in evs.items() if e.triggered)
         s['errors'] = list(errors)
         return s
@@ -599,6 +615,50 @@ def search(tname, depth, pairs, first=None, pair_depth=2):
             'samples': samples}
 
 
+def self_preemption(cap, rival_prio):
+    """one process holds a slot with a bad priority and requests the same full resource again with a strictly better one:
+    it evicts its own first request and is interrupted with the Preempted details at its next yield"""
+    env = simpy.Environment()
+    res = PreemptiveResource(env, capacity=cap)
+    log = []
+
+    def rival(prio):
+        with res.request(priority=prio) as r:
+            yield r
+            log.append(('rival granted', env.now))
+            yield env.timeout(9)
+
+    def greedy():
+        low = res.request(priority=5)
+        yield low
+        yield env.timeout(2)
+        high = res.request(priority=1)
+        try:
+            yield high
+            yield env.timeout(3)
+            log.append(('never told', env.now))
+        except Interrupt as irq:
+            c = irq.cause
+            log.append(('preempted', env.now, isinstance(c, Preempted) and c.by is env.active_process and c.resource is res
+                        and c.usage_since == 0))
+        yield res.release(low)
+        yield res.release(high)
+        log.append(('count', res.count))
+    if cap == 2:
+        env.process(rival(rival_prio))
+    env.process(greedy())
+    from ..kernel import ExecTimer
+    try:
+        with ExecTimer():
+            env.run(until=30)
+    except BaseException as e:      # noqa
+        return ['self-preemption (capacity %d): env.run raised %r' % (cap, e)]
+    want = ([('rival granted', 0)] if cap == 2 else []) + [('preempted', 2, True), ('count', cap - 1)]
+    if log != want:
+        return ['self-preemption (capacity %d, rival priority %r): observed %r, expected %r' % (cap, rival_prio, log, want)]
+    return []
+
+
 def BOUNDS(tier):
     return {'quick': {'depth': 4, 'pairs_from_depth': '<= 3'}, 'thorough': {'depth': 5, 'pairs_from_depth': '<= 3'}}[tier]
 
@@ -609,16 +669,23 @@ def cases(tier):
         n = len(Model(kind, params).enabled())
         for i in range(n):
             out.append({'type': t, 'first': i})      # one case per first operation (load balance); states are deduplicated per case
+    out.append({'type': 'special', 'name': 'selfpreempt'})
     return out
 
 
 def explore_case(case, tier):
+    if case['type'] == 'special':
+        msgs = self_preemption(1, None) + self_preemption(2, 0) + self_preemption(2, 3)
+        return {'execs': 3, 'nontrivial': 3, 'outcomes': {'special': 3}, 'counters': {}, 'samples': [],
+                'viol': [{'faults': {'type': 'special'}, 'msgs': msgs}] if msgs else []}
     depth = 4 if tier == 'quick' else 5
     r = search(case['type'], depth, True, case.get('first'), pair_depth=3)
     return r
 
 
 def replay(case, faults):
+    if faults.get('type') == 'special':
+        return self_preemption(1, None) + self_preemption(2, 0) + self_preemption(2, 3)
     kind, params = TYPES[faults['type']]
     steps = faults['steps']
     m = Model(kind, params)
